@@ -1,8 +1,9 @@
 (* C01 -- the affine conversions as REGENERATED from /repo's current source (coq/Gen/GenC01.v, tools/py2coq.py) are the
    clean maps of Model/Grid.v, hence mutual inverses and the canonical map.  The characterisation is closed by a small
    portfolio so that algebraically equivalent rewrites of the source re-prove themselves. *)
-From Coq Require Import Reals ZArith Lra Lia.
-From PR Require Import Base.Num Base.RNum Model.Grid Proofs.Grid_real Gen.GenC01.
+From Coq Require Import Reals ZArith Lra Lia Bool.
+From Flocq Require Import Zaux Raux.
+From PR Require Import Base.Num Base.RNum Model.Grid Model.C01_Area Proofs.Grid_real Proofs.C01_index Gen.GenC01.
 Open Scope R_scope.
 
 Ltac c01_unfold_gen :=
@@ -40,4 +41,56 @@ Proof.
     now rewrite proj_arr_inverse_x, proj_arr_inverse_y.
   - intros c r. rewrite gen01_proj_of_arr_char by assumption.
     now rewrite proj_of_arr_x_canonical, proj_of_arr_y_canonical.
+Qed.
+
+(* ---- masked_ints.wrapper (element-wise block), AreaDefinition.__init__ (arithmetic), _generate_1d_proj_vectors (one element) ---- *)
+
+(* masked_ints.wrapper: the hand model's index and mask on both axes (np.round(v).astype(int) = trunc of an integer-valued number) *)
+Lemma gen01_masked_ints_char (a : area R) (cf rf : R) :
+  gen01_masked_ints RO a cf rf =
+  (c01_area_index RO (width a) cf, c01_area_index RO (height a) rf, c01_area_mask RO (width a) cf, c01_area_mask RO (height a) rf).
+Proof.
+  first [ reflexivity
+        | unfold gen01_masked_ints, c01_area_index, c01_area_mask, c01_clip, c01_lo, c01_hi, c01_half, c01_eps;
+          cbn [truncZ ofZ rintZ RO]; rewrite ?Ztrunc_IZR; reflexivity ].
+Qed.
+
+(* AreaDefinition.__init__: the attributes are the ones of Model/Grid.v *)
+Lemma gen01_init_char (x0 y0 x1 y1 : R) (w h : Z) : (1 <= w)%Z -> (1 <= h)%Z ->
+  let a := mk_area x0 y0 x1 y1 w h in
+  gen01_init RO w h (x0, y0, x1, y1) =
+  (pixel_size_x RO a, pixel_size_y RO a, (upl_x RO a, upl_y RO a), pixel_offset_x RO a, pixel_offset_y RO a).
+Proof.
+  intros Hw Hh a.
+  first [ reflexivity
+        | pose proof (IZR_pos_of _ Hw); pose proof (IZR_pos_of _ Hh);
+          unfold gen01_init, pixel_size_x, pixel_size_y, upl_x, upl_y, pixel_offset_x, pixel_offset_y; cbn;
+          repeat f_equal; first [ reflexivity | ring | field; lra ] ].
+Qed.
+
+(* _generate_1d_proj_vectors: element col of x and element row of y *)
+Lemma gen01_proj_vector_elements_char (a : area R) (c r : Z) :
+  gen01_proj_vector_elements RO (pixel_size_x RO a, pixel_size_y RO a) (upl_x RO a, upl_y RO a) c r = (proj_x RO a c, proj_y RO a r).
+Proof.
+  first [ reflexivity | unfold gen01_proj_vector_elements, proj_x, proj_y; cbn; f_equal; ring ].
+Qed.
+
+(* source-level statements: __init__ followed by the vector recipe is the canonical map ... *)
+Lemma gen01_source_canonical (x0 y0 x1 y1 : R) (w h c r : Z) : (1 <= w)%Z -> (1 <= h)%Z ->
+  let '(psx, psy, ul, _, _) := gen01_init RO w h (x0, y0, x1, y1) in
+  gen01_proj_vector_elements RO (psx, psy) ul c r =
+  (x0 + (IZR c + /2) * ((x1 - x0) / IZR w), y1 - (IZR r + /2) * ((y1 - y0) / IZR h)).
+Proof.
+  intros Hw Hh. rewrite gen01_init_char by assumption. cbv zeta.
+  rewrite gen01_proj_vector_elements_char, proj_x_canonical, proj_y_canonical. reflexivity.
+Qed.
+
+(* ... and the regenerated lookup (affine conversion, then the masked_ints block) is the hand model's array lookup *)
+Lemma gen01_source_lookup (a : area R) (x y : R) : wf_area a ->
+  let '(cf, rf) := gen01_array_coordinates_from_projection_coordinates RO a x y in
+  let '(cd, rd, cm, rm) := gen01_masked_ints RO a cf rf in
+  c01_index_array RO a x y = ((if cm then None else Some cd), (if rm then None else Some rd)).
+Proof.
+  intros W. rewrite gen01_arr_of_proj_char by assumption. rewrite gen01_masked_ints_char.
+  unfold c01_index_array, c01_masked_index. reflexivity.
 Qed.
